@@ -751,5 +751,23 @@ pub fn sudo_cells(w: &mut RWorld, rep: &mut Report) -> Vec<Fail> {
             }
         }
     }
+    // bank sudo (mint) reaches the bank module
+    w.hub.log.borrow_mut().clear();
+    let mint = BankSudo::Mint { to_address: w.user.clone(), amount: vec![coin(3, "ua")] };
+    let r = catch(|| w.app.sudo(SudoMsg::Bank(mint.clone())).map(|_| ()).map_err(|e| e.to_string()));
+    rep.evaluations += 1;
+    rep.bump("c17/sudo/bank");
+    let log = w.hub.log.borrow().clone();
+    match r {
+        Err(p) => fails.push(("panic-routing-sudo".into(), p)),
+        Ok(res) => {
+            if log.iter().filter(|e| e.module == "bank" && e.kind == "sudo" && e.payload == format!("{:?}", mint)).count() != 1 || log.len() != 1 {
+                fails.push(("sudo-not-delivered-to-its-module".into(), format!("bank mint: log {:?}", log)));
+            }
+            if res.is_err() {
+                fails.push(("sudo-result-differs-from-module".into(), format!("bank mint: {:?}", res)));
+            }
+        }
+    }
     fails
 }
